@@ -4,9 +4,9 @@ from __future__ import annotations
 import z3
 
 from .values import (Builtin, BoundMethod, ClassRef, ExtRef, FuncVal, ModuleRef, NativeFn, Obj, PyRaise, SBool,
-                     SInt, SReal, Stacked, TupleT, U, UVal, Unsupported)
+                     SInt, SReal, Stacked, SymMap, TupleT, U, UVal, Unsupported)
 
-NUM = (bool, int, float, SBool, SInt, SReal)
+NUM =(bool, int, float, SBool, SInt, SReal)
 
 
 def is_num(v):
@@ -142,6 +142,11 @@ class OpsMixin:
             if isinstance(a, (TupleT, UVal)) and isinstance(b, (tuple, TupleT, UVal)) and not is_num(b):
                 f = self.ctx.fn("tuple_concat", U, U, U)
                 return UVal(f(self.to_u(a), self.to_u(b)), "tuple")
+        if op == "BitOr" and _typeish(a) and _typeish(b):
+            # typing union  X | Y  -> tuple of alternatives (usable by isinstance)
+            ta = a if isinstance(a, tuple) else (a,)
+            tb = b if isinstance(b, tuple) else (b,)
+            return ta + tb
         if op == "BitOr" and isinstance(a, dict) and isinstance(b, dict):
             return {**a, **b}
         if op == "BitOr" and isinstance(a, (set, frozenset)) and isinstance(b, (set, frozenset)):
@@ -355,6 +360,11 @@ class OpsMixin:
             if set(a.keys()) != set(b.keys()):
                 return False
             return self._and([self.veq(a[k], b[k], obs) for k in a])
+        if isinstance(a, SymMap) and isinstance(b, SymMap):
+            # extensional equality of finite maps: same domain, same values on the domain
+            k = self.ctx.const("kmap", U)
+            return z3.And(a.has == b.has, z3.ForAll([k], z3.Implies(z3.Select(a.has, k), z3.Select(a.val, k) == z3.Select(b.val, k)))) \
+                if not (a.val.eq(b.val)) else (a.has == b.has)
         if isinstance(a, Obj) and isinstance(b, Obj):
             if a.cls != b.cls:
                 return False
@@ -498,6 +508,9 @@ class OpsMixin:
             return c.fn("u_slice", U, U, U, U)(self.to_u(v.start), self.to_u(v.stop), self.to_u(v.step))
         if isinstance(v, Stacked):
             return self.stack_to_u(v)
+        if isinstance(v, SymMap):
+            f = c.fn("mk_dict", z3.ArraySort(U, z3.BoolSort()), z3.ArraySort(U, U), U)
+            return f(v.has, v.val)
         raise Unsupported(f"to_u of {type(v).__name__}")
 
     def stack_to_u(self, v):
@@ -615,7 +628,15 @@ class OpsMixin:
             return self.unpack(self.iterate(v), n)
         return self.unpack(self.iterate(v), n)
 
+    def symmap_wrap(self, m, t):
+        return UVal(t, m.elem_cls)
+
     def getitem(self, o, k):
+        if isinstance(o, SymMap):
+            kt = self.to_u(self.hashable(k))
+            if not self.ctx.branch(z3.Select(o.has, kt), tag="dict-has-key"):
+                raise PyRaise("KeyError", (k,))
+            return self.symmap_wrap(o, z3.Select(o.val, kt))
         if isinstance(o, (tuple, list, str)):
             if isinstance(k, bool):
                 k = int(k)
@@ -676,6 +697,11 @@ class OpsMixin:
         raise Unsupported(f"getitem on {type(o).__name__}")
 
     def setitem(self, o, k, v):
+        if isinstance(o, SymMap):
+            kt = self.to_u(self.hashable(k))
+            o.has = z3.Store(o.has, kt, z3.BoolVal(True))
+            o.val = z3.Store(o.val, kt, self.to_u(v))
+            return
         if isinstance(o, list):
             if isinstance(k, int):
                 o[k] = v
@@ -689,6 +715,8 @@ class OpsMixin:
         raise Unsupported(f"setitem on {type(o).__name__}")
 
     def contains(self, container, x):
+        if isinstance(container, SymMap):
+            return SBool(z3.Select(container.has, self.to_u(self.hashable(x))), True)
         if isinstance(container, dict):
             return self.hashable(x) in container if _plain(x) else self._any_eq(container.keys(), x)
         if isinstance(container, (tuple, list, set, frozenset)):
@@ -708,6 +736,12 @@ class OpsMixin:
             if self.truth(r):
                 return True
         return False
+
+
+def _typeish(x):
+    if isinstance(x, (Builtin, ClassRef, ExtRef)) or x is None:
+        return True
+    return isinstance(x, tuple) and len(x) > 0 and all(_typeish(y) for y in x)
 
 
 def _plain(x):
